@@ -474,15 +474,20 @@ static std::vector<std::vector<double>> bary_menu(int ndim, bool thorough)
   return m;
 }
 
-// The same mesh in another frame: x' = s x + t with s a power of two and t = k (2^19, 2^22, 2^20) (UTM-like magnitudes): for the meshes with dyadic
-// coordinates the image is exact in floating point. The property is invariant under such a change of frame.
-static const double FRAME_SCALE[6] = {1., 1., 0.125, 0.125, 32., 32.};
-static const int FRAME_SHIFT[6] = {0, 1, 0, 1, 0, 1};
+// The same mesh in another frame: x' = s x + t. Frames 1-3: s a power of two and t = (2^19, 2^22, 2^20), exact in floating point for the meshes with
+// dyadic coordinates. Frames 4-6: generic (non dyadic) scales 25, 2, 0.3 and the UTM-like shift (652000.37, 4815000.21, 1234567.89): with dyadic
+// numbers products of coordinates are exact, which HIDES cancellation errors (a seeded defect was missed that way), generic numbers do not.
+// The property is invariant under such a change of frame.
+static const int NFRAME = 7;
+static const double FRAME_SCALE[NFRAME] = {1., 1., 0.125, 32., 25., 2., 0.3};
+static const int FRAME_SHIFT[NFRAME] = {0, 1, 1, 1, 2, 2, 0};
 static MeshSpec to_frame(const MeshSpec& m, int frame)
 {
   MeshSpec r = m;
   double sc = FRAME_SCALE[frame];
-  double t[3] = {524288. * FRAME_SHIFT[frame], 4194304. * FRAME_SHIFT[frame], 1048576. * FRAME_SHIFT[frame]};
+  double t[3] = {0., 0., 0.};
+  if (FRAME_SHIFT[frame] == 1) { t[0] = 524288.; t[1] = 4194304.; t[2] = 1048576.; }
+  if (FRAME_SHIFT[frame] == 2) { t[0] = 652000.37; t[1] = 4815000.21; t[2] = 1234567.89; }
   if (m.kind == 0)
   {
     for (size_t d = 0; d < r.dx.size(); d++) r.dx[d] *= sc;
@@ -490,7 +495,7 @@ static MeshSpec to_frame(const MeshSpec& m, int frame)
   }
   else
     for (auto& a : r.apices) for (size_t d = 0; d < a.size(); d++) a[d] = sc * a[d] + t[d];
-  if (frame > 0) r.desc += " frame: scale=" + fmt(sc) + " shift=" + std::to_string(FRAME_SHIFT[frame]) + "*(2^19,2^22,2^20)";
+  if (frame > 0) r.desc += " frame: scale=" + fmt(sc) + " shift=" + (FRAME_SHIFT[frame] == 0 ? "0" : FRAME_SHIFT[frame] == 1 ? "(2^19,2^22,2^20)" : "(652000.37,4815000.21,1234567.89)");
   return r;
 }
 
@@ -546,8 +551,8 @@ VF_PART(projection)
   Space sp;
   // order: 0 = inside points first, boundary points next, outside points last; 1 = generation order (outside points interleaved, two first)
   // filter: 0 = all samples, 1 = a selection and undefined Z values with rankZ=0
-  // frame: 0 = the mesh as in the menu; 1..5 = scaled by 1, 1/8, 32 and/or shifted by (2^19, 2^22, 2^20)
-  sp.axis("mesh", (int)meshes.size()).axis("order", 2).axis("filter", 2).axis("frame", 6);
+  // frame: 0 = the mesh as in the menu; 1..6 = scaled and / or shifted (see to_frame)
+  sp.axis("mesh", (int)meshes.size()).axis("order", 2).axis("filter", 2).axis("frame", NFRAME);
   for_each_case(C, sp, [&](uint64_t id, const std::vector<int>& idx) {
     int ord = idx[1], filter = idx[2], frame = idx[3];
     if (frame > 0 && filter == 1 && !C.thorough()) return;  // (quick: the filtered layouts only in the original frame)
